@@ -62,6 +62,8 @@ type WObj struct {
 	Policies []WPolicy    `json:"policies"`
 	Logging  string       `json:"logging"`
 	Client   WClient      `json:"client"`
+	// Via: how this version is written (see stamp.go): "" main resource, "status" status subresource, "recreate" delete + create
+	Via string `json:"via,omitempty"`
 }
 
 func (o WObj) clone() WObj {
